@@ -589,14 +589,14 @@ Proof.
   - apply negb_true_iff. apply str_eqb_neq. auto.
 Qed.
 Lemma nested_target_in_deps g M S u T :
-  In S (m_nested M) -> counted S = true -> In u (s_uses S) -> u_target u <> m_name M ->
+  In S (m_nested M) -> In u (s_uses S) -> u_target u <> m_name M ->
   find_module g (u_target u) = Some T -> In T g /\ In (m_name T) (deps g M).
 Proof.
-  intros HS HC Hu Hne Ef. apply find_module_some in Ef as [HT En]. split; auto.
+  intros HS Hu Hne Ef. apply find_module_some in Ef as [HT En]. split; auto.
   unfold deps, resolved_targets. rewrite En. apply filter_In. split.
   - apply filter_In. split.
     + apply in_app_iff. right. unfold nested_targets. apply in_flat_map. exists S. split; auto.
-      rewrite HC. now apply in_map.
+      now apply in_map.
     + apply str_in_In. rewrite <- En. now apply in_map.
   - apply negb_true_iff. apply str_eqb_neq. auto.
 Qed.
@@ -913,7 +913,7 @@ Proof.
 Qed.
 
 (* nested scopes: when the processing order respects the dependencies get_deps collects, the
-   entries the USE statements of a counted nested scope add are exactly the Spec's *)
+   entries the USE statements of a nested scope add are exactly the Spec's *)
 Lemma before_split n l1 l2 : ~ In n l1 -> before n (l1 ++ n :: l2) = l1.
 Proof.
   induction l1 as [|x l1 IH]; simpl; intros H.
@@ -924,10 +924,10 @@ Qed.
 
 Theorem nested_correct c g o :
   wf_graph g = true -> no_region g = true -> topo_b g o = true ->
-  forall M S, In M g -> In S (m_nested M) -> counted S = true ->
+  forall M S, In M g -> In S (m_nested M) ->
   denotes (nested_imports_model c g o M S) (nested_imports c g M S).
 Proof.
-  intros Hwf Hnr Ht M S HM HS HC. destruct (wf_graph_facts g Hwf) as (ND & Hs & _).
+  intros Hwf Hnr Ht M S HM HS. destruct (wf_graph_facts g Hwf) as (ND & Hs & _).
   destruct (wf_graph_nested g M S Hwf HM HS) as [Fn Hnd].
   destruct (no_region_facts_all g Hnr M HM) as [_ RFn]. specialize (RFn S HS).
   pose proof Ht as Ht'. apply topo_b_facts in Ht' as (_ & NDo & Sset & TP).
@@ -935,10 +935,7 @@ Proof.
   apply in_split in Hin as (l1 & l2 & Eo).
   assert (Hn1 : ~ In (m_name M) l1).
   { intros Hin. rewrite Eo in NDo. apply NoDup_remove_2 in NDo. apply NDo. apply in_app_iff. now left. }
-  assert (HR : uses_resolved S = true).
-  { unfold counted in HC. unfold uses_resolved. rewrite forallb_forall in HC |- *. intros k Hk.
-    specialize (HC k Hk). destruct k; simpl in *; congruence. }
-  unfold nested_imports_model. rewrite HR, Eo, (before_split _ _ _ Hn1).
+  unfold nested_imports_model. rewrite Eo, (before_split _ _ _ Hn1).
   assert (F0 : functional (nested_imports c g M S)).
   { eapply functional_incl; [|exact Fn]. intros x Hx. apply in_flat_map. exists c. split; auto.
     destruct c; simpl; auto. }
@@ -947,7 +944,7 @@ Proof.
   destruct (Hf (fun u Hu => Hu)) with (pub := @nil (str * ent)) (all := @nil (str * ent))
                                       (Sp := @nil (str * ent)) (Sa := @nil (str * ent)) as (_ & D & _).
   - intros u T Hu Ef.
-    destruct (nested_target_in_deps g M S u T HS HC Hu (no_self_use_nested g M S Hs HM HS u Hu) Ef) as [HT Hd].
+    destruct (nested_target_in_deps g M S u T HS Hu (no_self_use_nested g M S Hs HM HS u Hu) Ef) as [HT Hd].
     destruct (TP l1 (m_name M) l2 Eo) as (M' & Ef' & Hdeps).
     assert (M' = M) by (rewrite (find_module_nodup g M ND HM) in Ef'; congruence). subst M'.
     apply Hdeps in Hd. unfold st_tabs.
@@ -1269,7 +1266,7 @@ Example ex_tables :
   assoc_get (s "vd1") (snd (st CVar)) = Some (s "md", s "vd1").
 Proof. vm_compute. repeat split; reflexivity. Qed.
 
-(* ---- nested scopes: witnesses of region 5 and an example *)
+(* ---- nested scopes: the witnesses of the two repaired defects, and an example *)
 Definition w_za : module := mkM "za" Public [mkD "ta" KType Public; mkD "pa" KProc Public] [] [].
 (* module mm: abstract interface; subroutine cb(x); use za; type(ta) :: x *)
 Definition w_absbody : graph :=
@@ -1281,48 +1278,61 @@ Definition w_genbody : graph :=
          [mkS ["ext"%string] [NGenBody] [] [mkU "zf" None []]];
    mkM "zf" Public [] [] [mkU "za" None []];
    w_za].
-Definition nested_refuted_in (g : graph) : Prop :=
-  exists o c M S, wf_graph g = true /\ topo_b g o = true /\ toposort g = Some o /\
-                  In M g /\ In S (m_nested M) /\ no_region g = true /\ region_uncounted g = true /\
-                  ~ denotes (nested_imports_model c g o M S) (nested_imports c g M S).
-Lemma refuted_absbody : nested_refuted_in w_absbody.
-Proof.
-  exists [s "mm"; s "za"], CType, (nth 0 w_absbody w_za),
-         (mkS ["cb"%string] [NAbsBody] [] [mkU "za" None []]).
-  repeat split; try (vm_compute; reflexivity); try (simpl; auto; fail).
-  intros D. specialize (D (s "ta") (s "za", s "ta")). destruct D as [_ D].
-  assert (H : in_b (s "ta") (s "za", s "ta")
-                (nested_imports CType w_absbody (nth 0 w_absbody w_za)
-                   (mkS ["cb"%string] [NAbsBody] [] [mkU "za" None []])) = true) by (vm_compute; reflexivity).
-  apply in_b_In in H. apply D in H. vm_compute in H. discriminate.
-Qed.
-Lemma refuted_genbody : nested_refuted_in w_genbody.
-Proof.
-  exists [s "mm"; s "za"; s "zf"], CType, (nth 0 w_genbody w_za),
-         (mkS ["ext"%string] [NGenBody] [] [mkU "zf" None []]).
-  repeat split; try (vm_compute; reflexivity); try (simpl; auto; fail).
-  intros D. specialize (D (s "ta") (s "za", s "ta")). destruct D as [_ D].
-  assert (H : in_b (s "ta") (s "za", s "ta")
-                (nested_imports CType w_genbody (nth 0 w_genbody w_za)
-                   (mkS ["ext"%string] [NGenBody] [] [mkU "zf" None []])) = true) by (vm_compute; reflexivity).
-  apply in_b_In in H. apply D in H. vm_compute in H. discriminate.
-Qed.
+(* USE statements in the body of an abstract interface were ignored, those in a body inside a
+   generic interface block were not a dependency (mm was correlated before zf had merged za's
+   entities): with find_used_modules / get_deps visiting all interface blocks the used module comes
+   first and ta is there *)
+Example fixed_absbody :
+  wf_graph w_absbody = true /\ no_region w_absbody = true /\ toposort w_absbody = Some [s "za"; s "mm"] /\
+  assoc_get (s "ta") (nested_imports_model CType w_absbody [s "za"; s "mm"] (nth 0 w_absbody w_za)
+                        (mkS ["cb"%string] [NAbsBody] [] [mkU "za" None []])) = Some (s "za", s "ta").
+Proof. repeat split; vm_compute; reflexivity. Qed.
+Example fixed_genbody :
+  wf_graph w_genbody = true /\ no_region w_genbody = true /\
+  toposort w_genbody = Some [s "za"; s "zf"; s "mm"] /\
+  assoc_get (s "ta") (nested_imports_model CType w_genbody [s "za"; s "zf"; s "mm"] (nth 0 w_genbody w_za)
+                        (mkS ["ext"%string] [NGenBody] [] [mkU "zf" None []])) = Some (s "za", s "ta").
+Proof. repeat split; vm_compute; reflexivity. Qed.
 
 Definition ex_gn : graph :=
   ex_g ++ [mkMn "me" Public [mkD "pe" KProc Public] [] []
              [mkS ["pe"%string] [NRoutine] [mkD "vl" KVar Public] [mkU "md" (Some [(s "tl", s "tl")]) []];
               mkS ["pe"%string; "qe"%string] [NRoutine; NRoutine] [] [mkU "mc" None []];
-              mkS ["pe"%string; "ext"%string] [NRoutine; NIfBody] [] [mkU "mb" (Some [(s "vq", s "vb1")]) []]]].
+              mkS ["pe"%string; "ext"%string] [NRoutine; NIfBody] [] [mkU "mb" (Some [(s "vq", s "vb1")]) []];
+              mkS ["pe"%string; "cbx"%string] [NRoutine; NAbsBody] [] [mkU "ma" (Some [(s "ix", s "ia1")]) []]]].
 Definition ex_on := ex_o1 ++ [s "me"].
 Example ex_nested_hypotheses :
   wf_graph ex_gn = true /\ no_region ex_gn = true /\ topo_b ex_gn ex_on = true /\
   toposort ex_gn = Some ex_on /\
-  forallb (fun M => forallb counted (m_nested M)) ex_gn = true /\
   (* without the nested USE statements "me" would not depend on anything *)
-  deps ex_gn (nth 4 ex_gn w_ma) = [s "md"; s "mc"; s "mb"] /\
+  deps ex_gn (nth 4 ex_gn w_ma) = [s "md"; s "mc"; s "mb"; s "ma"] /\
   assoc_get (s "tl") (nested_imports_model CType ex_gn ex_on (nth 4 ex_gn w_ma)
                         (nth 0 (m_nested (nth 4 ex_gn w_ma)) (mkS [] [] [] []))) = Some (s "ma", s "ta1") /\
+  assoc_get (s "ix") (nested_imports_model CAbs ex_gn ex_on (nth 4 ex_gn w_ma)
+                        (nth 3 (m_nested (nth 4 ex_gn w_ma)) (mkS [] [] [] []))) = Some (s "ma", s "ia1") /\
   in_b (s "pa1") (s "ma", s "pa1")
        (nested_lower_spec CProc ex_gn (nth 4 ex_gn w_ma)
           (nth 1 (m_nested (nth 4 ex_gn w_ma)) (mkS [] [] [] []))) = true.
 Proof. repeat split; vm_compute; reflexivity. Qed.
+
+(* the nested statement without the region hypothesis still fails: the recorded USE-statement
+   defects (here: a rename without ONLY is ignored) are the same in a nested scope *)
+Definition w_nested_rename : graph :=
+  [mkMn "mm" Public [mkD "p" KProc Public] [] []
+         [mkS ["p"%string] [NRoutine] [] [mkU "za" None [(s "tb", s "ta")]]];
+   w_za].
+Definition nested_refuted_in (g : graph) : Prop :=
+  exists o c M S, wf_graph g = true /\ topo_b g o = true /\ toposort g = Some o /\
+                  In M g /\ In S (m_nested M) /\ region_rename g = true /\
+                  ~ denotes (nested_imports_model c g o M S) (nested_imports c g M S).
+Lemma refuted_nested_rename : nested_refuted_in w_nested_rename.
+Proof.
+  exists [s "za"; s "mm"], CType, (nth 0 w_nested_rename w_za),
+         (mkS ["p"%string] [NRoutine] [] [mkU "za" None [(s "tb", s "ta")]]).
+  repeat split; try (vm_compute; reflexivity); try (simpl; auto; fail).
+  intros D. specialize (D (s "tb") (s "za", s "ta")). destruct D as [_ D].
+  assert (H : in_b (s "tb") (s "za", s "ta")
+                (nested_imports CType w_nested_rename (nth 0 w_nested_rename w_za)
+                   (mkS ["p"%string] [NRoutine] [] [mkU "za" None [(s "tb", s "ta")]])) = true) by (vm_compute; reflexivity).
+  apply in_b_In in H. apply D in H. vm_compute in H. discriminate.
+Qed.
